@@ -39,6 +39,9 @@ def gen(rng, tier):
             k = rng.random()
             if k < 0.6:
                 ch = rng.choice(contigs + (["9"] if rng.random() < 0.15 else []))
+                if rng.random() < 0.12:
+                    # the same chromosome under its other name (chr1 for 1, X for chrX): another contig as far as a file is concerned
+                    ch = ch[3:] if ch.startswith("chr") else "chr" + ch
                 shape = rng.choice(["c", "c:a-b", "c:a-b", "c:a-"])
                 a = max(1, rng.choice(poss) + rng.choice([-1, 0, 0, 1, 2]))
                 b = rng.choice([x for x in [p + d for p in poss for d in (-1, 0, 1)] if x >= a] or [a])
